@@ -298,6 +298,11 @@ theorem nsf_runX (x y : P2P × TLState) (h : XInv x) (h0 : 0 ≤ x.1.nextSpectat
       show 0 ≤ s'.nextSpectatorFrame
       have : 0 ≤ s.nextSpectatorFrame := ih
       omega
+    | localInput s t handle input =>
+      obtain ⟨l, hl⟩ := P2P.addLocalInput_pending s handle input
+      show 0 ≤ (s.addLocalInput handle input).1.nextSpectatorFrame
+      rw [hl]; exact ih
+    | saves s t sv => exact ih
     | dropApi s s' t now handle addr ep hpt hep hrem hlt hl0 hsame hcall =>
       show 0 ≤ s'.nextSpectatorFrame
       unfold P2P.disconnectPlayer at hcall
